@@ -390,7 +390,7 @@ class MetaSim(SimEngine):
         except BuildError:
             raise
         except Exception as ex:
-            ctx.probe("discarded-unbuildable-world:" + type(ex).__name__)
+            ctx.probe("discarded-unbuildable-world:" + type(ex).__name__ + ":" + str(ex)[:70])
             return False
         # ground truth by exhaustive search of the ORIGINAL problem
         truth = search(world)
